@@ -289,4 +289,11 @@ theorem ecdsa_verify_api_is_sec1_secp256k1 (hcof : SecpCofactorOne) (c : ℤ) (Q
         (@valid_of_pubKeyOk secp256k1_p ⟨secp256k1_p_prime⟩ secp256k1 secpOk Q hk).2.1⟩ r s) :=
   @ecdsa_verify_api_is_sec1_key secp256k1_p ⟨secp256k1_p_prime⟩ secp256k1 secpOk hcof c Q hk r s
 
+/-- **a fully discharged instance of a `_raw` theorem** (AUDIT2 item 6): on the toy curve `y² = x³ + 7` over `F₄₃`
+cofactor one is PROVED (`Toy.toy_hcof`), so C02-T2 over the raw arithmetic holds there with no hypothesis left -/
+example (c : ℤ) (Q : Point) (hv : AValid 43 Toy.toyC.toCurveGroup Q) (hr : RedA Toy.toyC.toCurveGroup Q) (r s : ℤ) :
+    Ecdsa.verify (EC.ops Toy.toyC) c Q r s = true ↔
+      Grp.SEC1 (lawfulGroup_ec Toy.toyOk) c ⟨Q, inSubOf Toy.toy_hcof hv hr⟩ r s :=
+  ecdsa_verify_iff_sec1_raw Toy.toyOk Toy.toy_hcof c Q hv hr r s
+
 end Btc.E2E
